@@ -38,7 +38,7 @@ def case_strategy(draw, tier="quick"):
     if group == "mod2" and t["gkind"] == "str":
         group = "series"
     expr = {"base": draw(st.sampled_from(["xy", "x", "y", "x", "z"])),
-            "arith": draw(st.sampled_from([None, None, ["+", 1.5], ["*", 2.0], ["-", 0.25]])),
+            "arith": draw(st.sampled_from([None, None, ["+", 1.5], ["*", 2.0], ["-", 0.25], ["r-", 3.0]])),
             "filter": draw(st.sampled_from([None, None, -1.0, 0.0, 1.0, 2.5])),
             # optional second condition, combined with & or | (compound boolean filter)
             "filter2": draw(st.sampled_from([None, None, None, ["&", 2], ["|", 4], ["&", 0]])),
@@ -99,7 +99,7 @@ def apply_expr(df, expr, streaming):
         sel = getattr(f, expr["base"]) if expr.get("access") == "attr" else f[expr["base"]]
     if expr["arith"]:
         op, c = expr["arith"]
-        sel = sel + c if op == "+" else (sel * c if op == "*" else sel - c)
+        sel = sel + c if op == "+" else (sel * c if op == "*" else (c - sel if op == "r-" else sel - c))
     a = expr["agg"]
     if a == "size":
         return sel.size if streaming else sel.size
@@ -146,7 +146,7 @@ def elementwise(df, expr):
     sel = f[["x", "y"]] if expr["base"] == "xy" else f[expr["base"] if expr["base"] in ("x", "y", "z") else "y"]
     if expr["arith"]:
         op, c = expr["arith"]
-        sel = sel + c if op == "+" else (sel * c if op == "*" else sel - c)
+        sel = sel + c if op == "+" else (sel * c if op == "*" else (c - sel if op == "r-" else sel - c))
     return sel
 
 
